@@ -19,7 +19,7 @@ def unesc (s : String) : String := String.ofList (unescChars s.toList)
 def escChar (c : Char) : String :=
   match c with
   | '%' => "%25" | '\t' => "%09" | '\n' => "%0A" | '\r' => "%0D"
-  | ',' => "%2C" | ';' => "%3B" | '|' => "%7C" | '-' => "%2D"
+  | ',' => "%2C" | ';' => "%3B" | '|' => "%7C" | '-' => "%2D" | ' ' => "%20"
   | c => String.singleton c
 
 def esc (s : String) : String := s.toList.foldl (fun acc c => acc ++ escChar c) ""
